@@ -226,6 +226,9 @@ pub fn run(args: &Args) -> i32 {
                 let mut last_op_of_case = false;
                 let mut legacy_merge_path = false;
                 let mut cross_ref_update = false;
+                // shared filter-rewrite classes observed through a write (DELETE / UPDATE plan the filter like a scan)
+                let mut inlist_null_rows: BTreeSet<i64> = BTreeSet::new();
+                let mut coerce_possible = false;
                 let target_has_null_key = t.m.rows.values().any(|r| r[on_col].is_null());
                 match kind {
                     // ---------------------------------------------------------------- DELETE
@@ -250,6 +253,8 @@ pub fn run(args: &Args) -> i32 {
                                 continue;
                             }
                         };
+                        inlist_null_rows = crate::c16::null_rows_of_merged_inlists(&pred, &t.m);
+                        coerce_possible = !pred.mergeable_inlist_columns(false).is_empty() && df.ids_where_full_sql(&sql).await.map(|b| b == victims).unwrap_or(false);
                         match guarded(t.ds.delete(&sql)).await {
                             Ok(()) => {
                                 for v in &victims {
@@ -347,6 +352,8 @@ pub fn run(args: &Args) -> i32 {
                                 continue;
                             }
                         };
+                        inlist_null_rows = crate::c16::null_rows_of_merged_inlists(&pred, &t.m);
+                        coerce_possible = !pred.mergeable_inlist_columns(false).is_empty() && df.ids_where_full_sql(&sql).await.map(|b| b == hit).unwrap_or(false);
                         let built = (|| -> lance::Result<lance::dataset::UpdateJob> {
                             let mut b = UpdateBuilder::new(Arc::new(t.ds.clone())).update_where(&sql)?;
                             for (c, e) in &sets {
@@ -378,8 +385,10 @@ pub fn run(args: &Args) -> i32 {
                                         pred.negated_leaves(true, &mut neg);
                                         ix.is_some() && (r.rows_updated as usize) > hit.len() && neg.iter().any(|(k, c)| *c == on_col && matches!(*k, "eq" | "in"))
                                     };
+                                    let n_upd = r.rows_updated as usize;
+                                    let inlist_null = !inlist_null_rows.is_empty() && n_upd > hit.len() && n_upd <= hit.len() + inlist_null_rows.len();
                                     report.violation(
-                                        if nulls_under_not { NOT_NULL_SIG } else { "update-reports-wrong-row-count" },
+                                        if nulls_under_not { NOT_NULL_SIG } else if inlist_null { crate::c16::DF_NOT_IN_SIG } else if coerce_possible { crate::c16::COERCE_SIG } else { "update-reports-wrong-row-count" },
                                         &format!("rows_updated = {}, model updates {}", r.rows_updated, hit.len()),
                                         witness(&t, &op_desc, json!({"reported": r.rows_updated, "expected": hit.len()})),
                                     );
@@ -771,6 +780,19 @@ pub fn run(args: &Args) -> i32 {
                         && (!missing.is_empty() || !changed.is_empty());
                     // (R2) MERGE on an indexed key: the indexed join uses NullEqualsNull
                     let r2 = opk == "merge" && ix.is_some() && on_col == 1 && merge_null_src && target_has_null_key;
+                    // (R0) shared filter-rewrite classes: the wrongly deleted / updated rows are rows whose filter value is
+                    //      NULL with merged in-lists, or DataFusion's coercing pipeline gets the filter right
+                    if (opk == "delete" || opk == "update") && extra.is_empty() && (!missing.is_empty() || !changed.is_empty()) {
+                        let dev_in_nulls = missing.iter().chain(changed.iter()).all(|id| inlist_null_rows.contains(id));
+                        if dev_in_nulls {
+                            report.violation(
+                                crate::c16::DF_NOT_IN_SIG,
+                                &format!("after {}: {}", opk.to_uppercase(), v.what),
+                                witness(&t, &op_desc, json!({"detail": v.detail, "missing": trunc(&missing, 10), "changed": trunc(&changed, 10)})),
+                            );
+                            return;
+                        }
+                    }
                     // (R3) UPDATE with several assignments where one reads a column assigned by another
                     let r3 = opk == "update" && cross_ref_update && extra.is_empty() && missing.is_empty() && !changed.is_empty();
                     if r3 {
@@ -811,7 +833,14 @@ pub fn run(args: &Args) -> i32 {
                         && extra.is_empty()
                         && !missing.is_empty()
                         && missing.iter().all(|id| t.m.rows.get(id).map(|r| r[on_col].is_null() && !m_before.contains_key(id)).unwrap_or(false));
-                    let sig = if null_key_rows_missing { "merge-insert-drops-source-rows-with-null-key".to_string() } else { format!("{opk}-result-{}", v.sig) };
+                    let sig = if null_key_rows_missing {
+                        "merge-insert-drops-source-rows-with-null-key".to_string()
+                    } else if (opk == "delete" || opk == "update") && coerce_possible && extra.is_empty() {
+                        // nothing more specific applied, the filter has mergeable in-lists and DataFusion's coercing pipeline gets it right
+                        crate::c16::COERCE_SIG.to_string()
+                    } else {
+                        format!("{opk}-result-{}", v.sig)
+                    };
                     let show = |ids: &[i64], m: &BTreeMap<i64, Row>| -> Vec<String> { ids.iter().take(5).map(|i| m.get(i).map(vmon::table::render_row).unwrap_or_default()).collect() };
                     let scanned: BTreeMap<i64, Row> = out.rows.iter().filter_map(|r| Some((r[0].as_i64()?, r.clone()))).collect();
                     report.violation(
